@@ -60,6 +60,10 @@ def run_ops(ctx: Ctx, what: str) -> None:
                 if ln["sugar"]:
                     objs.append(("built", W.build_sugar_op(o)))
                 objs.append(("decoded", W.dec_op(enc)))
+                if what == "typing":
+                    inferred = W.infer_partial_op(o, objs[-1][1])
+                    if inferred is not None:
+                        objs.append(("inferred by the builder", inferred))
                 if what == "codec":
                     _codec(ctx, sig, ln, o, enc, objs)
                 else:
